@@ -167,9 +167,7 @@ Spec == Init /\ [][Next]_vars
    AllExplained is a hard invariant: any other disagreement between the models and the definition is a modelling error *)
 Explained5(f) ==      \* a group that lost its GE reports AK903 = 0 (st_count_recv is only set by err_gs.close; pinned by the fixture 837miss)
   \/ f.c = "group_totals" /\ f.d1 = "received" /\ f.d2 = "false" /\ f.d3 = "zero"
-  \* cur_st_node survives add_gs_loop: while a set of an EARLIER group is still unclosed (its SE never came), a segment-level error reported in a
-  \* later group outside a set body is kept on that stale set instead of the group it was reported in
-  \/ f.c = "group_code" /\ f.d1 = "A" /\ f.d3 = "seg_error_outside_set_body_after_unclosed_set"
+  \* (the stale-set deviation - cur_st_node surviving add_gs_loop - was repaired by 2d11172 and is no longer explained)
 Explained6(f) == FALSE
 Judged == done /\ res.judged /\ res.hasgroup /\ ~res.crashed
 Bad5 == {f \in res.f5 : ~Explained5(f)}
